@@ -231,7 +231,8 @@ def Rule.equals (a b : Rule) : Bool :=
   a.res == b.res && a.conc == b.conc && a.cb == b.cb && a.pmc == b.pmc && a.idx == b.idx && a.key == b.key &&
     a.thr == b.thr && itemsEq a.items b.items
 
-/-- `Rule.IsStatReusable` (the duration is fixed by the metric type in this op language) -/
+/-- `Rule.IsStatReusable` (every rule of this op language has `DurationInSec = 1`, so a rule whose metric type alone is
+    switched by a reload differs from the old one in exactly the field compared last here) -/
 def Rule.statReusable (a b : Rule) : Bool :=
   a.res == b.res && a.cb == b.cb && a.pmc == b.pmc && a.conc == b.conc
 
